@@ -28,7 +28,9 @@ func appNum(name string) int {
 
 func identNum(id string) int {
 	var n int
-	fmt.Sscanf(id, "user%d", &n)
+	if _, err := fmt.Sscanf(id, "user%d", &n); err != nil {
+		fmt.Sscanf(id, "p%d", &n) // a person's policy id used as a code-review login
+	}
 	return n
 }
 
@@ -104,6 +106,15 @@ func genReviewCase(c *runCtx, r *rand.Rand, idx int) error {
 			id := fmt.Sprintf("user%d", []int{201, 202, 203, 204, 211, 212, 213, 299}[x])
 			if len(reg) > 0 && r.Intn(3) != 0 {
 				id = reg[r.Intn(len(reg))]
+			}
+			if r.Intn(4) == 0 { // a login that happens to equal a person's policy id (preferably one who registered nothing for this app)
+				cand := pids[r.Intn(len(pids))]
+				for _, pid := range pids {
+					if _, ok := t.Idents[pid][a.Name]; !ok {
+						cand = pid
+					}
+				}
+				id = personID(cand)
 			}
 			dup := false
 			for _, y := range approvers {
